@@ -195,6 +195,7 @@ from ..propagators.dmevolution import ReducedDensityMatrixEvolution
 from ..hilbertspace.operators import ReducedDensityMatrix
 from ...core.time import TimeAxis
 from ...core.saveable import Saveable
+from ...core.managers import energy_units
 
 
 from .superoperator import SuperOperator
@@ -933,7 +934,9 @@ class EvolutionSuperOperator(SuperOperator, TimeDependent, Saveable):
             
         if (self.is_in_rwa and sgn == 1) or sgn == -1:
             
-            HOmega = ham.get_RWA_skeleton()
+            # the frame frequencies multiply times in femtoseconds
+            with energy_units("int"):
+                HOmega = ham.get_RWA_skeleton()
             
             for i, t in enumerate(self.time.data):
                 # evolution operator
